@@ -353,8 +353,44 @@ def gen_area(rng, tier_thorough, idx, force=None):
                 else:
                     hist.append({"op": "colrow2lonlat", "row": rng.randint(0, h - 1), "col": rng.randint(0, w - 1)})
             hists.append(hist)
+        # a history in which the CALLER overwrites, in place, arrays it was handed (unit conversion, re-origin ...):
+        # the object must keep describing the same grid through every accessor afterwards
+        hist = []
+        for k in range(rng.randint(3, 6)):
+            j = rng.random()
+            mut = rng.random() < (0.8 if k == 0 else 0.4)
+            if j < 0.3:
+                hist.append({"op": rng.choice(["get_proj_vectors", "projection_coords"]), "mutate": mut})
+            elif j < 0.5:
+                hist.append({"op": "get_proj_coords", "slice": rng.choice([None, gen_pair(rng, h, w)]),
+                             "chunks": gen_chunks(rng, h, w) if rng.random() < 0.25 else None, "mutate": mut})
+            elif j < 0.8:
+                hist.append({"op": "get_lonlats", "slice": rng.choice([None, None, gen_pair(rng, h, w)]),
+                             "chunks": gen_chunks(rng, h, w) if rng.random() < 0.25 else None, "dtype": None, "cache": False, "mutate": mut})
+            elif j < 0.9:
+                hist.append({"op": "get_lonlat", "row": rng.randint(-h, h - 1), "col": rng.randint(-w, w - 1)})
+            else:
+                hist.append({"op": "colrow2lonlat", "row": rng.randint(0, h - 1), "col": rng.randint(0, w - 1)})
+        hists.append(hist)
     spec["histories"] = hists
     spec["meta"]["hist_exact"] = h * w <= 64
+    # --- several lazy results in ONE dask.compute: this area and a twin with the same shape and (bitwise) the same pixel sizes
+    #     but another origin (a neighbouring tile of the same grid); same chunks, same dtype
+    if h * w <= 900:
+        fx0, fy0, fx1, fy1 = ext
+        psx, psy = (fx1 - fx0) / float(w), (fy1 - fy0) / float(h)
+        twin, same = None, False
+        for sx, sy in [(fx1 - fx0, 0.0), (0.0, fy1 - fy0), (fx1 - fx0, fy1 - fy0), (2 * (fx1 - fx0), 0.0), (-(fx1 - fx0), 0.0), (3 * psx, -2 * psy)]:
+            cand = [fx0 + sx, fy0 + sy, fx1 + sx, fy1 + sy]
+            if not all(math.isfinite(v) for v in cand) or cand[0] == cand[2] or cand[1] == cand[3]:
+                continue
+            if (cand[2] - cand[0]) / float(w) == psx and (cand[3] - cand[1]) / float(h) == psy and cand != ext:
+                twin, same = cand, True
+                break
+            twin = twin or cand
+        if twin is not None:
+            spec["joint"] = {"twin_extent": twin, "chunks": gen_chunks(rng, h, w)}
+            spec["meta"]["joint_same_pixel_size"] = same
     # --- points in projection coordinates: built from exact fractional-index targets
     x0, y0, x1, y1 = [Fr(v) for v in ext]
     dx, dy = (x1 - x0) / w, (y1 - y0) / h
@@ -744,6 +780,7 @@ class Eval:
         self.lonlat(A, xs, ys, ok)
         self.histories(A, xs, ys, ok)
         self.aliases()
+        self.joint(A)
         ctx.case(("area", spec["crs"], tuple(bits(v) for v in spec["extent"]), h, w), nontrivial=nontriv,
                  sample=self.smp(0, {"area": {"crs": self.name, "extent": spec["extent"], "shape": [h, w], "mode": self.meta["mode"], "flip": self.meta["flip"]},
                          "impl_upper_left_pixel": at["pixel_upper_left"]}))
@@ -776,6 +813,59 @@ class Eval:
                     if (math.isfinite(a) and math.isfinite(b)) == fi:
                         return True
         return False
+
+    def joint(self, A):
+        """Lazy dask results of this area and of a twin (same shape, same pixel size, other origin) evaluated in ONE
+        dask.compute: each must still be its own canonical map, and bitwise what the stand-alone evaluation gives."""
+        ctx, spec, obs = self.ctx, self.spec, self.obs
+        jt, res = spec.get("joint"), obs.get("joint")
+        if not jt or res is None:
+            return
+        h, w = spec["h"], spec["w"]
+        same_ps = bool(self.meta.get("joint_same_pixel_size"))
+        ctx.count("joint_compute_" + ("same_pixel_size" if same_ps else "other_pixel_size"))
+        what0 = "one dask.compute over get_proj_coords/get_lonlats(chunks=%r) of this area and of a twin with extent %r" % (jt["chunks"], jt["twin_extent"])
+        ctx.case(("joint", spec["crs"], tuple(bits(v) for v in spec["extent"]), h, w, repr(jt)), nontrivial=same_ps,
+                 sample=self.smp(1, {"joint_compute": {"extent": spec["extent"], "twin_extent": jt["twin_extent"], "shape": [h, w], "chunks": jt["chunks"],
+                                                       "same_pixel_size": same_ps}, "impl_norm_chunks": res.get("norm_chunks")}))
+        if "error" in res:
+            self.fail("C01.coords.dask.joint_compute", "%s raised %s" % (what0, res))
+            return
+        nch = res["norm_chunks"][-2:]
+        rows, cols = list(range(h)), list(range(w))
+        tspec = dict(spec)
+        tspec["extent"] = jt["twin_extent"]
+        for who, sp_, xy, ll in (("this area", spec, res["area_xy"], res["area_ll"]), ("the twin", tspec, res["twin_xy"], res["twin_ll"])):
+            sub = Eval(ctx, dict(sp_, meta=self.meta), {}, {k: [] for k in list(CHK) + ["coords32"]})
+            sub.seen = set()
+            g = sub.check_grid(xy[0], xy[1], rows, cols, "%s: coordinates of %s" % (what0, who), "C01.coords.dask.joint_compute")
+            if g is None:
+                for f_ in ctx.failures[-1:]:
+                    f_.key = "C01.coords.dask.joint_compute"
+                    f_.replay = {"spec": {k: v for k, v in spec.items()}, "detail": {"who": who}}
+                continue
+            Xa, Ya = g
+            smp = self.samples(h, w)
+            stxt = "[" + "; ".join("(%d, %d, %s, %s)" % (i, j, fhex(Xa[i, j]), fhex(Ya[i, j])) for i, j in smp) + "]"
+            e = sp_["extent"]
+            A_ = "(mk_area %s %s %s %s %d %d)" % (fhex(e[0]), fhex(e[1]), fhex(e[2]), fhex(e[3]), w, h)
+            self.coq["coords_dask"].append("(%s, %s, %s, %s, %s, %s)" % (A_, zlist(nch[0]), zlist(nch[1]), zlist(rows), zlist(cols), stxt))
+            # lon/lats against the reference geodetic inverse of that area's own canonical centres
+            o_ = sub.o
+            cx = np.array([float(o_.X(c)) for c in range(w)])
+            cy = np.array([float(o_.Y(r)) for r in range(h)])
+            CX, CY = np.meshgrid(cx, cy)
+            RLON, RLAT = self.R.transform(CX, CY, direction=INV)
+            lo = np.asarray(ll[0]["data"], dtype=float).reshape(h, w)
+            la = np.asarray(ll[1]["data"], dtype=float).reshape(h, w)
+            done = False
+            for i in range(h):
+                for j in range(w):
+                    if not done and not sub.ll_close(float(lo[i, j]), float(la[i, j]), float(RLON[i, j]), float(RLAT[i, j]), float(cx[j]), float(cy[i])):
+                        key = "C01.lonlat.derived_geographic_crs" if self.cls == "derived_geographic" else "C01.lonlat.dask.joint_compute"
+                        self.fail(key, "%s: lon/lat of %s at pixel (row %d, col %d) is (%.12g, %.12g), its geodetic lon/lat is (%.12g, %.12g)" % (
+                            what0, who, i, j, lo[i, j], la[i, j], RLON[i, j], RLAT[i, j]), {"who": who, "row": i, "col": j})
+                        done = True
 
     def aliases(self):
         """Deprecated / alternative entry points must be the same accessors (bitwise the same results)."""
@@ -837,6 +927,39 @@ class Eval:
                          sample=self.smp(4, {"history": [self.op_str(q) for q in hist[:k + 1]], "shape": [h, w], "crs": self.name,
                                  "impl": st.get("value") or (st.get("ll") or [{}])[0].get("shape") or st}))
                 key = self.ll_key("history." + acc, acc == "colrow2lonlat") if self.cls == "derived_geographic" else "C01.lonlat.history." + acc
+                if acc in ("get_proj_vectors", "projection_coords", "get_proj_coords"):
+                    ckey = "C01.coords.history." + acc
+                    if "error" in st:
+                        self.fail(ckey, "%s raised %s" % (what, st), {"history": hist, "step": k})
+                        break
+                    if acc == "get_proj_coords":
+                        rows, cols = self.rows_cols(op.get("slice"))
+                        g = self.check_grid(st["xy"][0], st["xy"][1], rows, cols, what, ckey, U64, op.get("slice"))
+                        if g is None or (vec_ok and len(rows) and len(cols) and not all(
+                                same(g[0][i, j], xs[cols[j]]) and same(g[1][i, j], ys[rows[i]]) for i in range(len(rows)) for j in range(len(cols)))):
+                            if g is not None:
+                                self.ctx.broken.append(("correspondence:history_coords", "%s is not bitwise the mesh of the fresh vectors" % what))
+                            break
+                    else:
+                        vx, vy = st["vec"][0]["data"], st["vec"][1]["data"]
+                        bad = None
+                        if len(vx) != w or len(vy) != h:
+                            bad = "lengths (%d, %d)" % (len(vx), len(vy))
+                        else:
+                            for c_, x_ in enumerate(vx):
+                                if not finite(x_) or abs(Fr(x_) - o.X(c_)) > Fr(o.tolx()):
+                                    bad = "x[%d]=%r but xmin+(c+1/2)dx=%r" % (c_, x_, float(o.X(c_)))
+                                    break
+                            for r_, y_ in enumerate(vy):
+                                if bad is None and (not finite(y_) or abs(Fr(y_) - o.Y(r_)) > Fr(o.toly())):
+                                    bad = "y[%d]=%r but ymax-(r+1/2)dy=%r" % (r_, y_, float(o.Y(r_)))
+                        if bad:
+                            self.fail(ckey, "%s: %s" % (what, bad), {"history": hist, "step": k})
+                            break
+                        if vec_ok and not (same_list(vx, xs) and same_list(vy, ys)):
+                            self.ctx.broken.append(("correspondence:history_vectors", "%s differs bitwise from the vectors of a fresh object" % what))
+                            break
+                    continue
                 if "error" in st:
                     self.fail(INT_KEY if int_int_chunks(op, st) else key, "%s raised %s" % (what, st), {"history": hist, "step": k})
                     good = False
@@ -906,8 +1029,15 @@ class Eval:
 
     @staticmethod
     def op_str(op):
+        m = " + caller overwrites the returned arrays in place" if op.get("mutate") else ""
         if op["op"] == "get_lonlats":
-            return "get_lonlats(data_slice=%r, chunks=%r, dtype=%r, cache=%r)" % (op.get("slice"), op.get("chunks"), op.get("dtype"), bool(op.get("cache")))
+            return "get_lonlats(data_slice=%r, chunks=%r, dtype=%r, cache=%r)%s" % (op.get("slice"), op.get("chunks"), op.get("dtype"), bool(op.get("cache")), m)
+        if op["op"] == "get_proj_coords":
+            return "get_proj_coords(data_slice=%r, chunks=%r)%s" % (op.get("slice"), op.get("chunks"), m)
+        if op["op"] == "get_proj_vectors":
+            return "get_proj_vectors()" + m
+        if op["op"] == "projection_coords":
+            return "projection_x_coords, projection_y_coords" + m
         if op["op"] == "get_lonlat":
             return "get_lonlat(%d, %d)" % (op["row"], op["col"])
         return "colrow2lonlat(%d, %d)" % (op["col"], op["row"])
